@@ -107,6 +107,14 @@ Theorem box_image_types : forall (SR : StarRing) (b : mbox SR),
 Proof. exact cq_box_types. Qed.
 Print Assumptions box_image_types.
 
+(* CQMap.measure(n qubits, destructive=False)[q q' ; c r r'] = [q = c][q' = c][r = c][r' = c] *)
+Theorem measure_nd_closed_form : forall (SR : StarRing) n q p c r s,
+  length q = n -> length p = n -> length c = n -> length r = n -> length s = n ->
+  cq_mat (cq_measure n false : cqmap SR) (q ++ p) (c ++ r ++ s)
+  = rmul (rmul (delta q c) (delta p c)) (rmul (delta r c) (delta s c)).
+Proof. exact CQLemmas.measure_nd_closed_form. Qed.
+Print Assumptions measure_nd_closed_form.
+
 (* ---------------------------------------------------------------- trace preservation *)
 Require Import DV.Quantum.GatesLemmas.
 
@@ -119,8 +127,8 @@ Proof. exact CQLemmas.tp_is_discard_law. Qed.
 Print Assumptions tp_is_discard_law.
 
 (* every box of the class is trace-preserving: unitaries (C11's gate_unitary), Ket,
-   Bits, stochastic ClassicalGates, Copy, destructive Measure (overriding bits or not),
-   Discard, constructive Encode, all four Swaps *)
+   Bits, stochastic ClassicalGates, Copy, Measure (destructive or not, overriding bits or
+   not), Discard, constructive Encode, all four Swaps *)
 Theorem tp_box_preserves_trace : forall (SR : StarRing) (b : mbox SR), tp_box b -> tp (cq_box b).
 Proof. exact tp_cq_box. Qed.
 Print Assumptions tp_box_preserves_trace.
